@@ -2292,6 +2292,9 @@ class Verifier(Engine):
                     continue
                 nret += 1
                 if mode == 'reject':
+                    if not getattr(self, 'fallback_unroll', None):
+                        p.scope = None
+                        for u in fs.uses_post: self.use_lemma(u, p)       # lemma facts may be needed to see that the path is infeasible
                     self.oblige(p, z3.BoolVal(False), 'no_normal_return', 'a meaningless request (%s) never returns normally' % fs.exits_iff.text)
                     continue
                 p.scope = None
